@@ -278,3 +278,157 @@ def plan_C17(ctx):
 
 
 CLAIMED["C17"] = plan_C17
+
+
+# ------------------------------------------------------------------------------------------------
+# corpus-based (two-world) checks
+
+import random
+import gen, corpus
+
+
+def directed_c01():
+    """hand-listed shapes present in every tier (DESIGN §12)"""
+    D = []
+    Y = lambda e: ("yield", e)
+    E = lambda n: ("eff", n)
+    D.append(("sw_break_after_yield", [("switch", None, "a%2", [("1", [("if", "g1", [Y("a + 1"), ("break",)], None), Y("b + 2")])], [Y("a + 3")]), Y("b + 4")]))
+    D.append(("sw_break_first", [("switch", None, "a%2", [("1", [("if", "g1", [("break",)], None), Y("b + 2")])], [Y("a + 3")]), Y("b + 4")]))
+    D.append(("continue_yield_post", [("decl", "i", "0"), ("for", None, "i < n", Y("i + 100"), [("inc", "i"), ("if", "g1", [("continue",)], None), Y("i + 1")])]))
+    D.append(("continue_yieldfrom_post", [("decl", "i", "0"), ("for", None, "i < n", ("yieldfrom", "H2(i)"), [("inc", "i"), ("if", "g1", [("continue",)], None), E(1)])]))
+    D.append(("scope_break_block", [("for", ("decl", "i", "0"), "i < n", ("inc", "i"), [("decl", "i", "a"), ("block", [("if", "g1", [Y("i + 1")], [("break",)])])])]))
+    D.append(("yields_all_clauses", [("decl", "i", "0"), ("for", Y("a + 1"), "i < n", Y("b + 2"), [Y("i + 3"), ("inc", "i")])]))
+    D.append(("capture_across_yield", [("decl", "x", "a"), ("raw", "f := func() { x++ }\nget := func() int { return x }"), Y("get() + 1"), ("raw", "f()"), Y("x + 2")]))
+    D.append(("block_then_yield", [("block", [Y("a + 1")]), Y("b + 2")]))
+    D.append(("if_return_yield", [("if", "g1", [("return",)], None), Y("a + 1")]))
+    D.append(("inf_break_yield", [("for", None, None, None, [("if", "g1", [("break",)], None), Y("a + 1")])]))
+    D.append(("elif_chain", [("if", "g1", [Y("a + 1")], [("if", "g2", [Y("b + 2")], [E(1)])]), E(2)]))
+    D.append(("nested_for_cont_break", [("for", ("decl", "i", "0"), "i < n", ("inc", "i"), [("for", ("decl", "j", "0"), "j < n", ("inc", "j"), [("if", "g1", [("continue",)], None), ("if", "g2", [("break",)], None), Y("i*4 + j")])])]))
+    D.append(("tswitch", [("raw", "var x any = a\nif g1 {\n\tx = \"s\"\n}"), ("tswitch", "v", "x", [("int", [Y("v + 1")]), ("string", [Y("len(v) + 2")])], [("return",)]), Y("b + 3")]))
+    D.append(("switch_init", [("switch", ("decl", "z", "a%3"), "z", [("0", [Y("z + 1")]), ("1", [E(1)])], [Y("z + 2")]), Y("b + 3")]))
+    D.append(("switch_in_loop_break_continue", [("for", ("decl", "i", "0"), "i < n", ("inc", "i"), [("switch", None, "i%3", [("0", [Y("i + 1"), ("continue",)]), ("1", [("break",)])], [Y("i + 2")]), Y("i + 3")])]))
+    D.append(("loop_return_mid", [("for", ("decl", "i", "0"), "i < n", ("inc", "i"), [Y("i + 1"), ("if", "i == 1 && g1", [("return",)], None), E(1)]), Y("a + 9")]))
+    D.append(("while_yield_first", [("decl", "i", "0"), ("for", None, "i < n", None, [Y("i + 1"), ("inc", "i"), ("if", "g1", [("continue",)], None), E(1)])]))
+    D.append(("closure_loop", [("decl", "s", "0"), ("raw", "add := func(d int) { s += d }"), ("for", ("decl", "i", "0"), "i < n", ("inc", "i"), [("raw", "add(i + a)"), Y("s + 1")]), Y("s + 2")]))
+    D.append(("native_loop_break_end", [("decl", "s", "0"), ("for", ("decl", "i", "0"), "i < n", ("inc", "i"), [("assign", "s", "s + i"), ("if", "g1", [("break",)], None)]), Y("s + 1")]))
+    D.append(("native_switch_end", [Y("a + 1"), ("decl", "s", "0"), ("switch", None, "a%2", [("0", [("assign", "s", "1")])], [("assign", "s", "2")]), ("effv", 1, "s")]))
+    D.append(("tagless_switch", [("switch", None, None, [("a > b", [Y("a + 1")]), ("g1", [Y("b + 2")])], [E(1)]), Y("a + 3")]))
+    D.append(("case_ends_if", [("switch", None, "a%2", [("0", [E(1), ("if", "g1", [Y("a + 1")], None)])], [Y("b + 2")]), Y("a + 3")]))
+    D.append(("yielding_switch_ends_loop", [("for", ("decl", "i", "0"), "i < n", ("inc", "i"), [("switch", None, "i%2", [("0", [Y("i + 1")])], None)]), Y("a + 2")]))
+    return D
+
+
+C01_HELPERS = """func H2(x int) (_ Iter[int]) {
+	Yield(x + 1000)
+	Yield(x + 2000)
+	return
+}
+"""
+
+
+def build_c01_corpus(ctx, corp, n_exh, n_sampled, weights=None, max_nodes=12, sample_seed_off=0):
+    rng = random.Random(ctx.seed * 7919 + sample_seed_off)
+    pid = 0
+    # bounded-exhaustive part
+    exh = gen.exhaustive(ctx.q(3, 4))
+    rng2 = random.Random(ctx.seed)
+    if len(exh) > n_exh:
+        keep = [l for l in exh if sum(1 for _ in l) and gen_size(l) <= 2]
+        rest = [l for l in exh if gen_size(l) > 2]
+        rng2.shuffle(rest)
+        exh_sel = keep + rest[:max(0, n_exh - len(keep))]
+    else:
+        exh_sel = exh
+    for lst in exh_sel:
+        ctr = gen.Ctr()
+        body = gen.concretize(lst, ctr, [])
+        p = gen.Program("e%04d" % pid, body, named_result=(pid % 2 == 0), family="exh")
+        pid += 1
+        corp.add(p)
+    for body in gen.sampled(rng, n_sampled, max_nodes, weights):
+        p = gen.Program("s%04d" % pid, body, named_result=(pid % 2 == 0), family="smp")
+        pid += 1
+        corp.add(p)
+    for name, body in directed_c01():
+        helpers = C01_HELPERS if "H2(" in repr(body) else ""
+        p = gen.Program("d_%s" % name, body, helpers=helpers, named_result=False, family="dir", tags={"directed:" + name})
+        corp.add(p)
+    return {"exhaustive_total": len(exh), "exhaustive_used": len(exh_sel), "sampled": n_sampled, "directed": len(directed_c01())}
+
+
+def gen_size(lst):
+    n = 0
+    for s in lst:
+        n += 1
+        for part in s[1:]:
+            if isinstance(part, list):
+                n += gen_size(part)
+    return n
+
+
+def hist(vals):
+    h = {}
+    for v in vals:
+        v = re.sub(r" in: .*", "", v, flags=re.S)[:80]
+        h[v] = h.get(v, 0) + 1
+    return h
+
+
+def corpus_check(ctx, fam, build, K, extra_adv, level_extra, assumptions, floors, nlo=-1, nhi=3, stage1=False):
+    corp = corpus.Corpus(ctx, fam)
+    corp.driver_bin = runner.build_driver(ctx)
+    corp.stage1 = stage1
+    counts = build(corp)
+    corp.write(K, extra_adv, nlo, nhi)
+    corp.compile()
+    corp.quarantine_unbuildable(("out",))
+    pairs = corp.pairs()
+    if not pairs:
+        raise CheckError("no corpus package survived compilation")
+    args = engine_common(ctx)
+    res = runner.run_engine(ctx, pairs + args)
+    new, known, replayed, mism, details = corpus.process_two_world(ctx, corp, res)
+    decided_tags = {}
+    for d in res["drivers"]:
+        p = corp.programs.get(corp.pid_of_driver(d["name"]))
+        if p and d["status"] != "undecided":
+            for t in p.tags:
+                decided_tags[t] = decided_tags.get(t, 0) + 1
+    extra = {
+        "programs": len(corp.programs),
+        "programs_compiled": len(corp.where),
+        "programs_rejected_by_compiler": len(corp.rejected),
+        "programs_output_unbuildable": len(corp.unbuildable),
+        "rejected_samples": dict(list(corp.rejected.items())[:5]),
+        "rejected_by_message": hist(corp.rejected.values()),
+        "unbuildable_by_message": hist(corp.unbuildable.values()),
+        "unbuildable_samples": dict(list(corp.unbuildable.items())[:5]),
+        "corpus": counts,
+        "compile_s": round(corp.compile_s, 1),
+        "feature_tags_decided": dict(sorted(decided_tags.items())),
+        "details": details[:30],
+    }
+    extra.update(level_extra)
+    return finish(ctx, res, "translation_validation", new, known, replayed, mism, extra, assumptions, floors)
+
+
+REF_ASSUMPTION = "reference = the source file itself executed from its SSA with the coroutine semantics of DESIGN §2 for Yield/YieldFrom/MoveNext/Current/range-over-Iter (engine intrinsics, no code shared with rewriter or seq)"
+PROGRAM_DIM = "the program dimension is generated (bounded-exhaustive + seeded sample + directed shapes), not symbolic; inputs/guards are SMT variables"
+
+
+def plan_C01(ctx):
+    K = ctx.q(6, 12)
+
+    def build(corp):
+        return build_c01_corpus(ctx, corp, ctx.q(250, 2500), ctx.q(150, 1500))
+
+    extra = {
+        "bounds": {"advances_K": K, "loop_bound_n": "[-1,3]", "ints": "64-bit symbolic a, b; guards g1..g3 symbolic",
+                   "outside": "program shapes not generated; more than K yields; n outside [-1,3]; labelled control flow (C12); Go >= 1.22 per-iteration loop variables"},
+        "explanation": "per program one driver; every feasible path of source-under-coroutine-semantics followed by compiled-code+seq is executed from SSA and the two event logs are compared by one SMT query",
+    }
+    return corpus_check(ctx, "c01", build, K, 0, extra, [REF_ASSUMPTION, PROGRAM_DIM],
+                        floors={"drivers_holds": ctx.q(100, 1000)})
+
+
+CLAIMED["C01"] = plan_C01
